@@ -134,10 +134,27 @@ func GetCurrentDBDirName(fs vfs.FS, dir string) (string, error) {
 
 // CreateNodeDataDir creates new SM data dir.
 func CreateNodeDataDir(fs vfs.FS, dir string) error {
+	// Collect the directories that are about to receive a new entry: every missing
+	// ancestor plus the closest one that already exists.
+	var toSync []string
+	for p := filepath.Dir(dir); ; p = filepath.Dir(p) {
+		_, err := fs.Stat(p)
+		if err == nil || filepath.Dir(p) != p {
+			toSync = append(toSync, p)
+		}
+		if err == nil || filepath.Dir(p) == p {
+			break
+		}
+	}
 	if err := fs.MkdirAll(dir, 0o755); err != nil {
 		return err
 	}
-	return syncDir(fs, filepath.Dir(dir))
+	for _, p := range toSync {
+		if err := syncDir(fs, p); err != nil {
+			return err
+		}
+	}
+	return nil
 }
 
 // CleanupNodeDataDir cleans up old data dir (should be called after successful switch).
